@@ -104,7 +104,8 @@ Record Rep (h : hstate) (t : tstate) : Prop := {
   rep_ch : forall p, hch h p = kids p (rows 0 (forest_of t));
   rep_node : forall r, In r (rows 0 (forest_of t)) ->
              hpar h (r_id r) = Some (r_par r) /\ htr h (r_id r) = true /\ hinf h (r_id r) = r_info r;
-  rep_root : hpar h 0 = None /\ htr h 0 = true
+  rep_root : hpar h 0 = None /\ htr h 0 = true;
+  rep_all : incl (ids (forest_of t)) (hall h)
 }.
 
 Record RepW (hw : hworld) (w : world) : Prop := {
@@ -235,7 +236,7 @@ Proof.
   assert (Mem : forall r, In r (rows 0 (upd_ch pq (place nb x) f)) <-> In r (rows 0 f) \/ r = (p, n, inf)).
   { intros r. rewrite E2, E1, Epl, Ech, !flat_map_in_split, !rows_app. cbn [rows_t flat_map x app]. repeat rewrite in_app_iff. cbn [In]. repeat rewrite in_app_iff.
     split; intros X; intuition (auto 10; try congruence). }
-  constructor; cbn [set_all forest_of reg idx typed calc set_chl h_register set_regidx h_init add_all set_inf set_tr set_par hreg hidx htyped hcalc hch hpar htr hinf].
+  constructor; cbn [set_all forest_of reg idx typed calc set_chl h_register set_regidx h_init add_all set_inf set_tr set_par hreg hidx htyped hcalc hch hpar htr hinf hall].
   - now rewrite (rep_reg h t R).
   - unfold hdid, h_init, add_all, set_inf. cbn [hinf]. rewrite upd_eq. now rewrite (rep_idx h t R).
   - apply R.
@@ -254,6 +255,8 @@ Proof.
       rewrite !(upd_neq _ n _ _ Nr). now apply (rep_node h t R).
     + cbn [r_id r_par r_info fst snd]. now rewrite !upd_eq.
   - rewrite !(upd_neq _ n _ 0) by congruence. apply R.
+  - intros m Hm. fold f in Hm. rewrite <- (rows_ids _ 0) in Hm. apply in_map_iff in Hm. destruct Hm as (r & <- & Hr).
+    apply Mem in Hr. apply in_or_app. destruct Hr as [Hr| ->]; [left; apply (rep_all h t R); now apply (rows_id_in f 0)|right; now left].
 Qed.
 
 Lemma Rep_dangling h t n p inf : Rep h t -> ~ In n (ids (forest_of t)) -> n <> 0 -> Rep (h_init h n p inf) t.
@@ -261,12 +264,13 @@ Proof.
   intros R Fn Nz.
   assert (Npar : forall r, In r (rows 0 (forest_of t)) -> r_par r <> n).
   { intros r Hr E. destruct (rows_parent_in _ 0 r Hr) as [X|X]; [congruence|]. apply Fn. now rewrite <- E. }
-  constructor; cbn [h_init add_all set_inf set_tr set_par set_chl hreg hidx htyped hcalc hch hpar htr hinf]; try apply R.
+  constructor; cbn [h_init add_all set_inf set_tr set_par set_chl hreg hidx htyped hcalc hch hpar htr hinf hall]; try apply R.
   - intros q. unfold upd. destruct (Nat.eqb q n) eqn:En; [|apply R].
     apply Nat.eqb_eq in En. subst q. symmetry. now apply kids_none.
   - intros r Hr. assert (Nr : r_id r <> n) by (intros E; apply Fn; rewrite <- E; now apply (rows_id_in _ 0)).
     rewrite !(upd_neq _ n _ _ Nr). now apply (rep_node h t R).
   - rewrite !(upd_neq _ n _ 0) by congruence. apply R.
+  - intros m Hm. apply in_or_app. left. now apply (rep_all h t R).
 Qed.
 
 Lemma upd_nth_same {X} (l : list X) i x : nth_error l i = Some x -> upd_nth i (fun _ => x) l = l.
